@@ -142,6 +142,7 @@ func Load(dir string, tests bool, goarch string, overlay map[string][]byte) (*Pr
 		fs := p.byPkg[k]
 		sort.Slice(fs, func(i, j int) bool { return FuncKey(fs[i]) < FuncKey(fs[j]) })
 	}
+	Current = p
 	return p, nil
 }
 
